@@ -51,9 +51,10 @@ def file_task(task):
             op = [0.0, 1e-4, 0.3][c % 3]
             clustered = c % 4 == 3
             rows = []
+            sids = ["S%d" % s for s in range(D)] if c % 3 else [str(x) for x in [2, 10, 33, 100][:D]]
             for m in range(n_mut):
                 for s in range(D):
-                    rows.append(random_row(rng, "m%02d" % m, "S%d" % s, extreme=c % 7 == 0))
+                    rows.append(random_row(rng, "m%02d" % m, sids[s], extreme=c % 7 == 0))
             in_file = os.path.join(tmp, "in.tsv")
             inputs.write_table(rows, in_file)
             cluster_file = None
